@@ -689,13 +689,15 @@ where
                                     });
                                 };
                                 // we can delete the buffered_lcs elem now:
-                                assert!(
-                                    buffered_lcs.contains(&lc2.id),
-                                    "buffered_lcs does not contain {} msg:{:?}",
-                                    lc2.id,
-                                    msg
-                                ); // logical error otherwise (prev lc still buffered but the newer one that is to be merged into the prev one not?)
-                                buffered_lcs.remove(&lc2.id);
+                                if !buffered_lcs.remove(&lc2.id) {
+                                    // lc2 was already confirmed (and published) while prev_lc is still buffered.
+                                    // None of its msgs can have been sent yet as they are queued behind the
+                                    // msgs of the still buffered prev_lc. So the merge is fine but
+                                    // the interims lifecycle must not stay published:
+                                    lcs_w.empty(lc2.id);
+                                    lcs_w.refresh();
+                                    last_lcw_refresh_index += 1;
+                                }
                                 remove_last_lc = true;
                                 // if we have no more yet, send the other msgs: (not possible as prev_lc exists)
                             } else {
